@@ -812,9 +812,10 @@ def gen_ma_multi(rng: random.Random, tier: str):
                          for aid in ("agent_0", "agent_1", "other_0")}
             cases.append({"suite": "macont", "algo": algo, "bounds": [bi, bj], "act": act, "rows": rows,
                           "training": tr, "single": single, "noise": noise, "seed": rng.randrange(1 << 30)})
-        # actors stubbed as a whole with outputs outside the bounds; training mode, where get_action clamps
-        # (in evaluation mode MADDPG / MATD3 return the actor output as it is — see the note in run())
-        for it in range(3 if tier == "quick" else 20):
+        # actors stubbed as a whole with outputs outside the bounds (what user-supplied actor networks may return):
+        # only get_action's own clamp keeps the action legal, in training and in evaluation mode
+        # (a failure in evaluation mode is the analysed defect C14-ma-eval-raw-actor-output)
+        for it in range(4 if tier == "quick" else 24):
             bi, bj = rng.choice(MA_BOUND_PAIRS)
             single = rng.random() < 0.35
             rows = []
@@ -825,10 +826,11 @@ def gen_ma_multi(rng: random.Random, tier: str):
                     row[aid] = {"h": [rng.choice([-BIG, lo[j] - 16.0, lo[j] - 0.5, lo[j], (lo[j] + hi[j]) / 2, hi[j],
                                                   hi[j] + 0.125, hi[j] + 16.0, BIG]) for j in range(len(lo))], "env": None}
                 rows.append(row)
+            tr = it % 2 == 1
             noise = {aid: [rng.choice([-0.5, 0.0, 0.125]) for _ in BOUNDS[bj if aid.startswith("other") else bi][0]]
-                     for aid in ("agent_0", "agent_1", "other_0")}
+                     for aid in ("agent_0", "agent_1", "other_0")} if tr else None
             cases.append({"suite": "macont", "algo": algo, "bounds": [bi, bj], "act": "None", "raw": True, "rows": rows,
-                          "training": True, "single": single, "noise": noise, "seed": rng.randrange(1 << 30)})
+                          "training": tr, "single": single, "noise": noise, "seed": rng.randrange(1 << 30)})
     return cases
 
 
@@ -1276,6 +1278,9 @@ FINDINGS = {
                                "shape (B, 1, 1); a row is not a member of the space",
     "C14-ippo-numpy-mask-valueerror": "IPPO.extract_action_masks tests `None in [mask, ...]`: with numpy masks of more than one "
                                       "action this raises ValueError, so masks as environments deliver them cannot be used",
+    "C14-ma-eval-raw-actor-output": "MADDPG / MATD3.get_action clamp continuous actions only in training mode: with "
+                                    "user-supplied actor networks (output not rescaled onto the Box) the evaluation-mode "
+                                    "action is the raw actor output, outside an asymmetric Box",
     "C14-cqn-explore-batch-from-len": "CQN.get_action sizes the exploring batch with len(obs): for Dict / Tuple observations "
                                       "that is the number of members, not the batch size",
 }
@@ -1292,6 +1297,9 @@ def finding_id(case, problem: str):
         return "C14-ippo-numpy-mask-valueerror"
     if algo == "CQN" and "-> action shape" in problem and case.get("family") in ("dict", "tuple") and case.get("eps", 0) > 0:
         return "C14-cqn-explore-batch-from-len"
+    if algo in ("MADDPG", "MATD3") and not case.get("training") and (case.get("raw") or case.get("custom")) \
+            and "not in Box" in problem:
+        return "C14-ma-eval-raw-actor-output"
     return None
 
 
@@ -1563,8 +1571,8 @@ def gen_sweep(rng: random.Random, tier: str):
                                  "seed": rng.randrange(1 << 30), "B": rng.randint(2, 4), "single": rep % 2 == 1,
                                  "training": rep % 4 < 2, "mask": rng.random() < 0.7, "eps": [0.0, 0.5, 1.0, 1.0][rep % 4],
                                  "env_defined": rng.random() < 0.4})
-    # user-supplied actor networks whose raw output range exceeds the (asymmetric, per-dimension) Box.
-    # MADDPG / MATD3 only in training mode: in evaluation mode they return the actor output as it is (note in run()).
+    # user-supplied actor networks whose raw output range exceeds the (asymmetric, per-dimension) Box,
+    # training and evaluation mode
     for algo in ("DDPG", "TD3", "MADDPG", "MATD3"):
         for rep in range(4 if tier == "quick" else 16):
             ma = algo in ("MADDPG", "MATD3")
@@ -1572,7 +1580,7 @@ def gen_sweep(rng: random.Random, tier: str):
             cfgs.append({"suite": "sweep", "algo": algo, "kind": "box", "family": "vector", "space_seed": 0,
                          "custom": {"bounds": [bi, bj], "act": ["Tanh", None][rep % 2]},
                          "seed": rng.randrange(1 << 30), "B": rng.randint(2, 4), "single": rng.random() < 0.3,
-                         "training": True if ma else rep % 4 < 2, "mask": False, "eps": 0.0, "env_defined": False})
+                         "training": rep % 4 < 2, "mask": False, "eps": 0.0, "env_defined": False})
     return cfgs
 
 
@@ -1624,9 +1632,6 @@ def run(chk: Check) -> None:
         "float32 arithmetic is exact on the dyadic inputs used; recorded Gaussian noise / squashed samples are compared with "
         f"relative tolerance {TOL}",
     ]
-    chk.notes.append("not asserted (reported to the maintainers instead): MADDPG / MATD3 built with user-supplied actor "
-                     "networks return the raw actor output in evaluation mode (no clamp, no rescale), which is outside an "
-                     "asymmetric Box; custom-actor and raw-actor cases for them are therefore run in training mode only")
     torch.set_num_threads(1)
     # 1. corpus
     corpus = []
@@ -1735,7 +1740,8 @@ def selftest(chk: Check) -> None:
         run_cases(chk, "selftest", fixed_b, sink_b)
     finally:
         actors_mod.DeterministicActor.rescale_action = orig3
-    if not sink or not any(p for _, _, p in sink_b):
+    # (through the agents the per-dimension clamp hides the fault from the oracle; the model diff must flag it)
+    if not sink or not sink_b:
         raise InfraError("C14 self-test: a rescale that uses the wrong bound was not noticed "
                          f"(static: {len(sink)} flagged, through MADDPG/MATD3 eval: {len(sink_b)} flagged)")
     detected.append("rescale with the wrong bound")
